@@ -29,7 +29,7 @@ def fixed_cases(tier):
 
 
 def n_generated(tier):
-    return 400 if tier == "quick" else 6000
+    return 400 if tier == "quick" else 2400
 
 
 def strategy(tier):
